@@ -12,6 +12,7 @@ CONSTANTS
   Sharing = "%(sharing)s"
   SkipSet = %(skips)s
   SuiteSet = %(suites)s
+  SystemRootsToo = %(sysroots)s
 INVARIANTS %(invs)s
 """
 
@@ -35,6 +36,7 @@ def exhaustive(ctx):
     # InsecureSkipVerify and the cipher-suite list have no effect in the model (that they have none in the code is what the
     # vectors test); only the thorough tier spends exhaustive states on them
     dims = dict(skips="{FALSE}", suites='{"default"}') if ctx.quick() else dict(skips="{TRUE, FALSE}", suites='{"default", "listed"}')
+    dims["sysroots"] = "FALSE"
     base = "TypeOK Floor Mutual Highest"
     # the code as it is: the policy function holds for all configurations x 40 clients; rotation only after the repair
     cfg = ctx.write_cfg("TLSPolicy", "MC_code.cfg", MC_CFG % dict(dims, certs=certs, sharing="all" if fixed else "none",
@@ -46,12 +48,17 @@ def exhaustive(ctx):
     ctx.cov["exhaustive"] = True
     # non-vacuity: a certificate holder per clone ("none", the code before F21 was repaired) loses the documented rotation
     # step; a holder shared only by clones made after the listener was built ("lazy") loses it for settings read back earlier
-    small = dict(skips="{FALSE}", suites='{"default"}')
+    small = dict(skips="{FALSE}", suites='{"default"}', sysroots="FALSE")
     for sharing in ("lazy",) if ctx.quick() else ("none", "lazy"):
         cfg = ctx.write_cfg("TLSPolicy", "MC_nv_%s.cfg" % sharing, MC_CFG % dict(small, certs='{"A", "B"}', sharing=sharing, invs="Rotation"))
         r = ctx.tlc_exhaustive("TLSPolicy", "TLSPolicy", cfg, expect_ok=False, count=False, workers=2, timeout=300, deadlock=False, heap="2g")
         if r["violated"] != "Rotation":
             raise vflib.Broken("non-vacuity run: expected Rotation to be violated with Sharing=%s, got %s" % (sharing, r["violated"]))
+    cfg = ctx.write_cfg("TLSPolicy", "MC_nv_sysroots.cfg", MC_CFG % dict(small, certs='{"A"}', sharing="all", invs="Mutual", sysroots="TRUE"))
+    r = ctx.tlc_exhaustive("TLSPolicy", "TLSPolicy", cfg, expect_ok=False, count=False, workers=2, timeout=300, deadlock=False, heap="2g")
+    if r["violated"] != "Mutual":
+        raise vflib.Broken("non-vacuity run: expected Mutual to be violated with SystemRootsToo=TRUE, got %s" % r["violated"])
+    ctx.notes.append("non-vacuity: with the host's trust store added to the verifying pool TLC finds Mutual violated (a client of a public CA gets in)")
     ctx.notes.append("non-vacuity: TLC finds Rotation violated when clones do not share the certificate holder, and when only clones made "
                      "after the listener was built share it (RotateOnDisk, ReloadPreSnapshot, Hello presents the old certificate)")
 
@@ -150,6 +157,9 @@ def run(ctx):
     ctx.cov["distinct_nontrivial"] = summ["nontrivial"]
     ctx.cov["trace_stats"] = res["stats"]
     ctx.cov["handshakes"] = {"performed": summ["handshakes"], "completed": summ["completed"], "rotation_steps": summ["rotation_steps"]}
+    if not summ.get("public_planted", False):
+        ctx.notes.append("the public CA could not be planted in the process's system trust store: clients of a host-trusted CA were not exercised")
+    ctx.cov["public_ca_planted"] = bool(summ.get("public_planted", False))
     for s in summ.get("samples", [])[:3]:
         ctx.sample(s)
     seen = {}
@@ -170,7 +180,8 @@ def run(ctx):
                          "no longer speaks about this code (not a verdict)")
     bind_mutation(ctx, lines)
     ctx.cov["rule"] = ("TLC-generated vectors: 1000 configurations (Min/Max x ClientAuth x CA file x InsecureSkipVerify x cipher-suite list) x 40 "
-                       "clients (10 version ranges x 4 certificate kinds; certificates are sent whatever CAs the server names), every configuration "
+                       "clients (10 version ranges x 5 certificate kinds: none, self-signed, configured CA, another private CA, a CA planted in the "
+                       "process's system trust store through SSL_CERT_FILE; certificates are sent whatever CAs the server names), every configuration "
                        "started as a real TLS listener, real crypto/tls handshakes + NULL call; 6 rotation histories (settings fetched after Listen, "
                        "fetched once and kept, fetched before Listen, written back with UpdateExportOptions); non-trivial = a configuration with "
                        "both completed and refused handshakes")
@@ -178,7 +189,10 @@ def run(ctx):
     ctx.assumptions += ["crypto/tls and crypto/x509 are trusted; the spec decides the policy around them",
                         "a handshake counts as completed when the server answered a NULL call on the session",
                         "cipher suites: library default or the list of DefaultTLSConfig(); client and server certificates are ECDSA P-256",
-                        "with no CAFile the verifying modes fall back to the system roots, to which no test certificate chains"]
+                        "with no CAFile the verifying modes fall back to the host's trust store (crypto/tls semantics of a nil ClientCAs); that "
+                        "store is then the anchor, so only the certificate of the planted public CA may get in",
+                        "the system trust store of the harness process is replaced (SSL_CERT_FILE / SSL_CERT_DIR set before its first use) by "
+                        "one test CA; if that does not take effect the public-CA clients are skipped and the run says so"]
 
 
 def replay(ctx):
